@@ -386,6 +386,9 @@ pub fn owned(prop: &str, v: &Violation) -> bool {
             matches!(v.class, MemEnv | LenGtCap | ObjectGuard | StorageLeak | BadValue | GarbageDrop | SharedStorage | Memcheck)
                 || (v.class == Alloc && !v.detail.contains("layout"))
                 || v.faulted == F_MEM_FAIL
+                // after a fault in user code: a visible element whose bytes are no value at all is
+                // storage that was never written, or was moved out or destroyed, being exposed
+                || (v.class == RelaxedInvalid && v.detail.contains("is not a valid value"))
         }
         "C06" => matches!(v.faulted, F_DROP_PANIC | F_CLONE_PANIC | F_NEXT_PANIC | F_LEN_LIE | F_MEM_FAIL),
         "C07" => v.faulted == 5,
@@ -394,7 +397,8 @@ pub fn owned(prop: &str, v: &Violation) -> bool {
         "C10" => strict && (matches!(v.class, CapPost | LenGtCap) || (v.op == Op::Cap && content)),
         "C11" => v.class == HeapUseOnStack || (v.on_stack && (content || (strict && ledger) || v.class == RelaxedInvalid || v.class == LenGtCap)),
         "C12" => matches!(v.class, Misaligned | Views) || (v.op == Op::Views && content),
-        "C13" => strict && content && (matches!(v.op, Op::Get | Op::Mutate | Op::Swap) || (v.op == Op::Take && v.via == VIA_ERASED && matches!(v.sink, SINK_MUTATE | SINK_SWAP | SINK_INSPECT))),
+        // (an iterator item that is not the element at its position is C13's as much as C14's)
+        "C13" => strict && content && (matches!(v.op, Op::Get | Op::Mutate | Op::Swap | Op::Iter) || (v.op == Op::Take && v.via == VIA_ERASED && matches!(v.sink, SINK_MUTATE | SINK_SWAP | SINK_INSPECT))),
         "C14" => strict && ((v.op == Op::Iter && content) || (matches!(v.op, Op::Drain | Op::Splice) && v.class == EvMismatch && !v.panic_involved)),
         "C17" => strict && v.op == Op::RawTrip,
         "C18" => matches!(v.class, Alloc | HeapLeak | HeapBlock | Memcheck) || (crash && v.detail.contains("allocator monitor")),
